@@ -19,6 +19,15 @@ theorem part_le (rows : List (List Cell)) (d k j : Nat) :
   rw [List.append_assoc, List.take_append_drop, List.take_append_drop] at h
   exact h
 
+/-- the cells of column `c` in a block of consecutive records are cells of column `c` of the table -/
+theorem column_part_subset (rows : List (List Cell)) (d k c : Nat) {cell : Bytes}
+    (h : cell ∈ column (values ((rows.drop d).take k)) c) : cell ∈ column (values rows) c := by
+  have hsub : ((rows.drop d).take k).Sublist rows := (List.take_sublist _ _).trans (List.drop_sublist _ _)
+  have : (column (values ((rows.drop d).take k)) c).Sublist (column (values rows) c) := by
+    unfold column values
+    exact (hsub.map _).filterMap _
+  exact this.subset h
+
 theorem bnd_strict {ncols : Nat} {hrow : List Cell} {rows : List (List Cell)} (hnc : 0 < ncols)
     (hhdr : hrow.length = ncols) (htab : ∀ r ∈ rows, r.length = ncols ∧ ∀ c ∈ r, c.WF) {q e : Nat} (h : q < e)
     (he : e ≤ rows.length + 1) : bnd hrow rows q < bnd hrow rows e := by
@@ -57,11 +66,12 @@ theorem shape_zeros2 {ncols maxrow m : Nat} {offs : List Nat} {inds : List (List
   · cases hr
 
 theorem driver_step_g {file : Bytes} {crs ncols : Nat} {im : List Nat} {hrow : List Cell} {rows : List (List Cell)}
-    (st : SettingR file crs ncols im hrow rows) {s : DS} {q e maxrow : Nat}
-    (hinv : DI file (crs * Gen.Csv.CHUNK_ROW_FACTOR * ncols) ncols im hrow rows s q e maxrow)
+    (st : SettingR file crs ncols im hrow rows) {F : Nat → List Bytes → Imp} {good : Nat → Bytes → Prop}
+    (hhom : ImpHom ncols F good) (hgood : ∀ c ∈ im, ∀ cell ∈ column (values rows) c, good c cell) {s : DS} {q e maxrow : Nat}
+    (hinv : DI F file (crs * Gen.Csv.CHUNK_ROW_FACTOR * ncols) ncols im hrow rows s q e maxrow)
     (hlt : bnd hrow rows q < file.length) :
     ∃ s' q' e' maxrow', driverStep file (crs * Gen.Csv.CHUNK_ROW_FACTOR * ncols) ncols im s = .ok s' ∧
-      DI file (crs * Gen.Csv.CHUNK_ROW_FACTOR * ncols) ncols im hrow rows s' q' e' maxrow' ∧
+      DI F file (crs * Gen.Csv.CHUNK_ROW_FACTOR * ncols) ncols im hrow rows s' q' e' maxrow' ∧
       mu rows ncols s'.offs q' maxrow' < mu rows ncols s.offs q maxrow := by
   have hwpos : 0 < crs * Gen.Csv.CHUNK_ROW_FACTOR * ncols := Nat.mul_pos (Nat.mul_pos st.crsPos (by decide)) st.nc
   obtain ⟨rowsW, nxt, hcontent, ⟨kk, hpart⟩, hrowsW, hnxt, hprog⟩ := window_decomp st hinv.qe hlt hinv.inwin
@@ -123,8 +133,19 @@ theorem driver_step_g {file : Bytes} {crs ncols : Nat} {im : List Nat} {hrow : L
     intro c hc
     rw [stageRows_length (rowsW.take a) (fun r hr => htabW r (List.mem_of_mem_take hr)) c hc, hlenA]
   have himp : importAll o.inds o.vals s.offs o.written.toNat im s.imps =
-      .ok (im.map (fun c => fieldOf' (doneCols rows (nextE e a - 1) c))) := by
-    rw [hinv.imps, hwr, importAll_acc (D := doneCols rows (e - 1)) hres.cols hlenE hres.shape.offsLen im st.imOk]
+      .ok (im.map (fun c => F c (doneCols rows (nextE e a - 1) c))) := by
+    have hsub : ∀ c ∈ im, ∀ cell ∈ stageRows (fun _ => []) (rowsW.take a) c, good c cell := by
+      intro c hc cell hcell
+      apply hgood c hc
+      rw [stageRows_col, List.nil_append, htakeA] at hcell
+      exact column_part_subset rows (e - 1) a c hcell
+    have hdone : ∀ c ∈ im, ∀ cell ∈ doneCols rows (e - 1) c, good c cell := by
+      intro c hc cell hcell
+      apply hgood c hc
+      have := column_part_subset rows 0 (e - 1) c (cell := cell) (by simpa [doneCols] using hcell)
+      exact this
+    rw [hinv.imps, hwr,
+      importAll_hom hhom (D := doneCols rows (e - 1)) hres.shape hres.cols hres.caps hlenE im st.imOk hdone hsub]
     congr 1
     apply List.map_congr_left
     intro c _
